@@ -983,6 +983,11 @@ class Frame:
             if hook is not None:
                 return hook(self.I, base, key)
             raise Unsupported(f"subscript of {base.cls}")
+        if isinstance(base, ForeignFn) and base.name in ("numpy.c_", "numpy.r_"):
+            items = list(key) if isinstance(key, tuple) else [key]
+            if base.name == "numpy.c_":
+                return N.hstack([N.reshape(N.asarray(x), -1, 1) if N.asarray(x).ndim == 1 else N.asarray(x) for x in items])
+            return N.concatenate([N.asarray(x) for x in items], axis=0)
         if isinstance(base, (RepoCls, TypeRef, ForeignFn, ModRef)):
             return base      # Generic[...] subscripts
         if isinstance(base, (F, C)):
